@@ -166,7 +166,7 @@ class C07Family(SshdFamily):
     def __init__(self):
         self.prop = "C07"
         self.driver_args = ["c07"]
-        self.uses_gen = ("RE", "ProcessEntry", "userTypeLogAuditFn")
+        self.uses_gen = ("RE", "ProcessEntry", "userTypeLogAuditFn", "templates")
 
     def modes_for(self, c):
         if c.get("au"):
